@@ -15,13 +15,52 @@ import (
 
 // Rec records, in order, every storage operation a node performs.
 type Rec struct {
-	mu  sync.Mutex
-	eff []string
+	mu      sync.Mutex
+	eff     []string
+	armed   int    // > 0: the armed-th next storage operation trips the crash point (before it executes)
+	tripped bool   // the crash point fired: everything this incarnation does from now on is after its "death"
+	armKind string // when set, only operations of this kind count
+	TripAt  string // the storage operation that did not happen any more
+	onTrip  func() // takes the directory image and cuts the incarnation off; runs inside the storage call
+}
+
+// gate is called at the start of every storage operation: an armed crash point fires between two
+// storage operations of one critical section (the node still holds its mutex).
+func (r *Rec) gate(op string) {
+	r.mu.Lock()
+	if r.armed > 0 && !r.tripped && (r.armKind == "" || strings.HasPrefix(op, r.armKind)) {
+		r.armed--
+		if r.armed == 0 {
+			r.tripped = true
+			r.TripAt = op
+			f := r.onTrip
+			r.mu.Unlock()
+			if f != nil {
+				f()
+			}
+			return
+		}
+	}
+	r.mu.Unlock()
+}
+func (r *Rec) Arm(k int, kind string, f func()) {
+	r.mu.Lock()
+	r.armed, r.armKind, r.onTrip = k, kind, f
+	r.mu.Unlock()
+}
+func (r *Rec) Tripped() bool {
+	r.mu.Lock()
+	defer r.mu.Unlock()
+	return r.tripped
 }
 
 func (r *Rec) add(s string) {
+	r.gate(s)
 	r.mu.Lock()
 	r.eff = append(r.eff, s)
+	if len(r.eff) > 4096 {
+		r.eff = r.eff[2048:]
+	}
 	r.mu.Unlock()
 }
 func (r *Rec) Take() []string {
